@@ -137,6 +137,26 @@ def r_heads(prog, tier):
     obs.append(Ob('R-HEADS/DIR', f.fq, 'a direction other than the two documented ones is refused', True if (lits == ['left-to-right',
                   'right-to-left'] and len(rz) >= 1) else None, 'compared with %s, else raise' % lits, construct='dirs', nontrivial=False,
                   line=f.node.lineno))
+    # the candidate categories of a rule are tried in their order: a position returned inside the loop over the candidates
+    # is returned because the child has THE candidate the loop is at, not just any of them
+    cfg_ = f.cfg
+    for lp_ in cfg_.eval_nodes():
+        if not (lp_.kind == 'iter' and isinstance(lp_.ast.iter, ast.Call) and isinstance(lp_.ast.iter.func, ast.Attribute)
+                and lp_.ast.iter.func.attr == 'split' and isinstance(lp_.ast.target, ast.Name)):
+            continue
+        cand = lp_.ast.target.id
+        whole = unparse(lp_.ast.iter)
+        for r_ in cfg_.eval_nodes():
+            if r_.kind == 'stmt' and isinstance(r_.ast, ast.Return) and lp_.id in r_.loops and len(r_.loops) > 1:
+                conds = [a_ for a_ in cfg_.assumes_at(r_.id) if lp_.id in a_.loops and set(a_.loops) > {lp_.id}]
+                names_ = set(y_.id for a_ in conds for y_ in ast.walk(a_.ast) if isinstance(y_, ast.Name))
+                texts_ = ' '.join(unparse(a_.ast) for a_ in conds)
+                if conds and cand not in names_ and whole in texts_:
+                    obs.append(Ob('R-HEADS/CMP', f.fq, 'a child is chosen because it has the candidate category the loop is at', False,
+                                  '`%s` is under `%s`, a test against ALL candidates (`%s`), inside the loop over them: the first '
+                                  'pass already takes a child with any candidate, the order of the candidates is ignored'
+                                  % (unparse(r_.ast), texts_[:60], whole[:40]), construct='cmp-priority:' + unparse(r_.ast),
+                                  line=r_.lineno))
     # categories compared lower-case and undecorated
     cmpn = [n for n in walk_own(f.node) if isinstance(n, ast.Compare) and 'parse_label' in ''.join(
         unparse(v) for (_, v) in [x for nm in [y.id for y in ast.walk(n) if isinstance(y, ast.Name)]
